@@ -40,21 +40,45 @@ def createComment (s : Style) (text : Text) (forceMulti : Bool) : Except Comment
   else if forceMulti || !s.canSingle then createMulti s text
   else createSingle s text
 
+/-- a letter, a digit or an underscore (ASCII): what continues a word -/
+def isWordChar (c : Char) : Bool := c.isAlphanum || c == '_'
+
+/-- the marker is a word (`REM`, `dnl`, Fortran's `c`): it ends with a letter or a digit -/
+def wordMarker (m : Text) : Bool := (m.getLast?.map Char.isAlphanum).getD false
+
+/-- `_is_single_line_comment` without the regular expression: the line starts with the marker, and a marker
+    that is a word stands as a word of its own (`REMOVE.EXE old.tmp` is a command, not a remark) -/
+def startsSingle (s : Style) (line : Text) : Bool :=
+  startsWith line s.single &&
+    !(wordMarker s.single && (((line.drop s.single.length).head?).map isWordChar).getD false)
+
 /-- a line is a single-line comment of the style -/
 def isSingleComment (s : Style) (line : Text) : Bool :=
   (match s.singleRe with
    | some r => Re.prefixMatch r line
-   | none => false) || startsWith line s.single
+   | none => false) || startsSingle s line
 
 /-- index of the last line of the leading run of single-line comments -/
 def singleRun (s : Style) : List Text → Nat → Option Nat → Option Nat
   | [], _, acc => acc
   | l :: ls, i, acc => if isSingleComment s l then singleRun s ls (i + 1) (some i) else acc
 
-/-- index of the first line that ends with the multi-line terminator -/
+/-- does the multi-line comment end in this line?  `none`: the line holds no terminator (on the first line the
+    opener itself is set aside); `some true`: it does and nothing but white space follows the terminator;
+    `some false`: text follows the terminator — that text is not part of the comment, the line cannot be
+    replaced as a whole -/
+def closesIn (s : Style) (first : Bool) (l : Text) : Option Bool :=
+  if contains (if first then l.drop s.mStart.length else l) s.mEnd then some (endsWith (rstrip l) s.mEnd) else none
+
+/-- index of the line in which the multi-line comment ends: the first line that holds the terminator, provided
+    only white space follows it there -/
 def multiEnd (s : Style) : List Text → Nat → Option Nat
   | [], _ => none
-  | l :: ls, i => if endsWith l s.mEnd then some i else multiEnd s ls (i + 1)
+  | l :: ls, i =>
+    match closesIn s (i == 0) l with
+    | some true => some i
+    | some false => none
+    | none => multiEnd s ls (i + 1)
 
 /-- `comment_at_first_character(text)`.  When the text opens with the multi-line opener and
     that comment is terminated, it is read as a multi-line comment even if the opener also
